@@ -247,7 +247,17 @@ func (c *Ctx) visitInstr(fr *frame, instr ssa.Instruction) (ret bool) {
 			panic(fmt.Sprintf("If on %T", cond))
 		}
 		succ := 1
-		if c.decideBool(ct, instr.Pos()) {
+		pos := instr.Pos()
+		if pos == token.NoPos {
+			// an If has no position of its own: use the nearest preceding positioned instruction
+			for i := len(fr.block.Instrs) - 2; i >= 0 && pos == token.NoPos; i-- {
+				pos = fr.block.Instrs[i].Pos()
+			}
+			if pos == token.NoPos {
+				pos = fr.fn.Pos()
+			}
+		}
+		if c.decideBool(ct, pos) {
 			succ = 0
 		}
 		fr.prevBlock, fr.block = fr.block, fr.block.Succs[succ]
